@@ -20,4 +20,14 @@ CHECKS = {
        'input order, the exact exception object of the failing item (or a re-raise of one of them after a correct prefix), termination, and all pool threads exiting.',
   note='Exhaustive at completion-order x consumer-progress granularity; which of the pool\'s two drain loops handles a result depends on OS timing and is '
        'measured (class drain:*), not controlled. Liveness is bounded by a watchdog (expiry = harness error unless all tasks were released). Fresh pool per case.'),
+ 'C07': dict(
+  category='exploration',
+  design_ref='DESIGN.md section 8',
+  technique='real FileLock/SemLock/LockFile code in threads under a deterministic baton-passing scheduler with yield points at every file-system call (monkey-patched module attributes, real flock on tmpfs); stateless DFS over all schedules within a preemption bound + Hypothesis-generated sparse-preemption schedules; trace oracle',
+  text='Exploration of schedules, exhaustive within a preemption bound: every interleaving with <=3 (2 contenders x 2 cycles) / <=2 (3 x 1) preemptions at '
+       'file-system-call granularity for both release styles and SemLock n=1,2 (thorough: <=5 / <=4 and 4 contenders), plus ~15k (thorough 450k) generated schedules '
+       'for 2-4 contenders x 1-3 cycles, SemLock n<=3. Checked on every trace: at most n holders at every step, LockTimeout only after >= timeout with every attempt '
+       'finding every slot held, no deadlock, all slots re-acquirable afterwards.',
+  note='Exhaustive only for the listed small configurations and preemption bounds. Schedule granularity = the instrumented calls (open, flock, chmod, close, remove, '
+       'sleep, time, randint). Timeouts are modelled as 1-5 polling steps on a virtual clock. NFS/lockd semantics and cleanup_lockdir are outside the model.'),
 }
